@@ -4,14 +4,28 @@ import json, os, importlib, sys
 HERE = os.path.dirname(os.path.dirname(os.path.abspath(__file__)))
 sys.path.insert(0, HERE)
 
+NOTE = "CPython semantics (builtin exception hierarchy, GIL atomicity of single list/dict operations); sa/constfold.py, sa/cfg.py exception model and the reviewed tables (field types, benign operations) are trusted; calls on peer/user-supplied objects are external; no monkey-patching of rpyc at run time"
 CLAIMS = {
- # id: (technique, level text, level note)
- "C12": ("typestate/lock-region and path rules over a typed-exception CFG of Connection._send; who-may-call over the package",
-         "Decides rules R12.1-R12.6 (send-lock pairing on all exits incl. exceptional, transport written only under the lock, "
-         "enqueue-before-try-lock, no normal return without a queue re-check outside the lock or a failed try-lock, guarded pop, FIFO ends, "
-         "non-blocking acquisition, atomic queue operations, popped item is what is sent) on every CFG path of the current source - "
-         "the structural necessary conditions of the hand-off protocol; it does not enumerate schedules, so it decides the discipline, not the behaviour.",
-         "CPython GIL atomicity of list.append/pop(0); Lock.release on a held lock does not raise; sa/cfg.py exception model"),
+ "C04": ("codec shape extraction (symbolic execution of the dump/load registry functions) + writer/reader table agreement + interval guards on length fields + call-graph effect closure of the decoder",
+         "Decides R04.1-R04.7: dumpable()'s exact-type domain equals the dump registry; refusal is TypeError; for every registered type and every length/value class the emitted wire layout is consumed by the registered loader with the same struct/length/children and rebuilt as the same type; tag space unambiguous; every length field bounded by its guard; no partial operation (strict encode) in a dumper; decoder closure effect-free. Round-trip equality of runtime values is not decided (struct/codecs trusted).", NOTE),
+ "C05": ("CFG path rules over the stream read/write loops and failure handlers; symbolic frame-layout agreement of Channel.send/recv",
+         "Decides R05.1-R05.5 on SocketStream, PipeStream, Channel: bounded receive requests, byte accounting by bytes actually received/accepted, no early loop exit, zero-length read = EOF, retries leave the accounting alone, every failure path closes and raises EOFError, close() always marks closed, header(len(payload), flag)+payload+flusher written in order with complementary slices and read back symmetrically. Kernel fragmentation itself is not explored.", NOTE),
+ "C06": ("sink enumeration over the handler call-graph closure + def-use/dominance in _access_attr + exhaustive abstract interpretation of _check_attr against the decision table of the statement + who-may-write analysis of configuration objects",
+         "Decides R06.1-R06.7: complete mediation (no computed-name attribute access reachable from a handler outside the gate; default accessor only with the name _check_attr returned; text-type gate), consistent (hook, switch, operation) rows, the decision of _check_attr on all feasible valuations of its 11+ atoms x 3 operations, type-level hooks, Service set/del denial, restricted() guards, and isolation of per-connection configuration (fresh copy, no writer of DEFAULT_CONFIG or of shared mutable values). User-defined hooks are out of scope.", NOTE),
+ "C07": ("effect/capability analysis over the resolved call graph from Connection._dispatch: dangerous sinks dominated by default-off configuration guards, fresh per-connection tables, path-based vetting of peer-named classes, computed-name lookups outside the policy",
+         "Decides R07.1-R07.7 under the folded DEFAULT_CONFIG: dispatch-table integrity, malformed requests confined to the replying try, identifiers resolved only through per-connection fresh tables, mediated attribute access, pickle/import/eval sinks dominated by switches that default to False, the exception loader never calls a peer-named class and vets it on every path, no peer-named getattr on modules, effect-free decoder. What exposed service code does is out of scope.", NOTE),
+ "C08": ("path counting of completed response sends on the typed-exception CFG of _dispatch_request; exception-routing of encode failures; def-use of sequence numbers; atomic pop routing",
+         "Decides R08.1-R08.5: exactly one response on every normal path bearing the unmodified seq, handler at most once, MSG_REPLY only on the no-exception continuation, peer-data consumption inside the catch-all, encode failures of the reply answered with one MSG_EXCEPTION, responses routed by one dict.pop(seq), registration before transmission with unregistration on failure, sequence numbers from one next() on a per-connection count. Peer retransmission/undecodable frames are out of scope.", NOTE),
+ "C11": ("must-pass-through rules over CFGs with exceptional edges out of every statement of close/_cleanup/serve (static analogue of fault injection) + interprocedural EOFError-escape summaries + who-may-call",
+         "Decides R11.1-R11.5: close() is idempotent, sets the flag first and reaches _cleanup on every normal and exceptional path; _cleanup sets the flag before calling out, closes the channel, runs on_disconnect exactly once and clears the tables; every call in serve() out of which a transport EOFError can escape is covered by a handler that closes; serve_all/serve_threaded close in finally; Channel/ClosedFile delegation; waiters keep serving. Simultaneous close on two threads is not decided.", NOTE),
+ "C12": ("typestate/lock-region and path rules over a typed-exception CFG of the send layer; who-may-call over the package",
+         "Decides R12.1-R12.6 (send-lock pairing on all exits incl. exceptional, transport written only under the lock, enqueue-before-try-lock, no normal return without a queue re-check outside the lock or a failed try-lock, guarded pop, FIFO ends, non-blocking acquisition, atomic queue operations, popped item is what is sent) on every CFG path of the current source - the structural necessary conditions of the hand-off protocol; it does not enumerate schedules, so it decides the discipline, not the behaviour.", NOTE),
+ "C13": ("lock-region, dominance and path-count rules over the CFG of serve(); publication-order dominance in AsyncResult.__call__; who-may-call for channel readers",
+         "Decides R13.1-R13.7: receive-lock pairing on every exit, channel read only under the lock and only in serve(), dispatch after release with exactly one dispatch per received packet, try-acquire and wait() atomic under one condition block, notify_all after release on every exit of the locked region, value fields written before the ready flag, atomic correlation (shared with C08), background thread only through serve(). Schedules are not enumerated.", NOTE),
+ "C14": ("event-ordering rule on the CFG of serve() (wake-up vs. dispatch of a consumed packet) + wait-loop shape rules",
+         "Decides R14.1-R14.3. R14.1 fires on the pinned and current tree (notify_all precedes _dispatch with the lock released): recorded as a known finding (design-level race, DESIGN section 7 D4); any other violation still fails. Actual latency is not decided.", NOTE),
+ "C19": ("translation validation: constant folding + codec/frame shape extraction of the current source compared row by row with a frozen reference of the published 5.x format (sa/ref/wire_5x.json, itself cross-validated against the documented hex example)",
+         "Decides R19.1-R19.5: per registered type and length/value class the writer emits the published tag and length form (shortest form = the published interval map), every published tag has a loader of the published shape, frame header/flusher/threshold, MSG_/LABEL_/HANDLE_ values by name and by role (which id each proxy operation sends), dispatch table id->handler, message/request/box/id_pack tuple layouts. Renaming private identifiers is silent; any self-consistent renumbering fires.", NOTE + "; the reference table is the trusted oracle"),
 }
 
 def main():
@@ -35,7 +49,7 @@ def main():
           for p in props if p not in CLAIMS]
     man = {
         "version": 1,
-        "setup_cmd": "/venv/bin/python -B -m compileall -q sa >/dev/null 2>&1; /venv/bin/python -B sa/selfcheck.py",
+        "setup_cmd": "/venv/bin/python -B sa/selfcheck.py && /venv/bin/python -B sa/ref/refcodec.py",
         "hooks": {"guard": "RPYC_VERIF", "enable": "none needed: the checks are static and read /repo's working tree; no instrumentation is compiled in",
                   "baseline_off_cmd": "cd /repo && /venv/bin/python -m pytest -ra -q -p no:cacheprovider --timeout=900 --continue-on-collection-errors",
                   "source_commits": [], "add_only": True},
